@@ -311,6 +311,9 @@ def jobs(tier="quick"):
     for sn in small:
         for o in flips(MODEL_DEFAULT, MODEL_OPTS):
             J.append(GenJob(f"C09.{sn}.generate_code." + ",".join(f"{k}={v}" for k, v in o.items()), "model.generate_code", [sn], o, [mods[sn].generate_code]))
+    for which, fn in (("rdd2", rdd2.generate_code), ("rdd2_loglinear", rdd2_loglinear.generate_code), ("bezier", bezier.generate_code),
+                      ("codegen", codegen.generate_code), ("algorithms", algorithms.generate_code)):
+        J.append(StatelessJob(f"C09.{which}.stateless", which, [fn]))
     if tier == "quick":
         for sn in ("rdd2", "bezier"):
             for o in [{"avoid_stack": False}, {"cpp": True}]:
@@ -327,6 +330,54 @@ def jobs(tier="quick"):
             J.append(GenJob("C09.codegen." + ",".join(f"{k}={v}" for k, v in o.items()), "codegen.generate_code",
                             ["estimator_mrp", "estimator_sim", "rdd2_loglinear", "mr_ref_traj"], o, [codegen.generate_code]))
     return J
+
+
+class StatelessJob:
+    """history clause: generating with non-default options must not change what a later default-option call of the same
+    entry point produces in the same process (byte-identical files)"""
+
+    def __init__(self, id, which, functions):
+        self.id, self.which, self.functions = id, which, functions
+        self.note = "sequence: defaults -> main=True,with_header=False -> defaults; third output must equal the first"
+
+    def gen(self, d, opts):
+        with quiet():
+            if self.which == "algorithms":
+                from cyecca.estimate.attitude import algorithms
+                algorithms.generate_code(algorithms.eqs(), d, **opts)
+            elif self.which == "codegen":
+                from cyecca import codegen
+                codegen.generate_code({"mr_ref_traj": sets()["mr_ref_traj"]()}, d, **opts)
+            else:
+                mod, eqs, fname, _ = derive_set(f"cyecca.models.{self.which}")
+                mod.generate_code(eqs, filename=fname, dest_dir=d, **opts)
+        out = {}
+        for fn in sorted(os.listdir(d)):
+            out[fn] = open(os.path.join(d, fn)).read()
+        return out
+
+    def run(self, seed=0):
+        os.makedirs(os.path.join(ROOT, "scratch"), exist_ok=True)
+        ds = [tempfile.mkdtemp(prefix="c09s_", dir=os.path.join(ROOT, "scratch")) for _ in range(3)]
+        t0 = time.time()
+        try:
+            a = self.gen(ds[0], {})
+            self.gen(ds[1], {"main": True, "with_header": False})
+            c = self.gen(ds[2], {})
+            same = a == c
+            diff = sorted(set(a) ^ set(c)) + [k for k in a if k in c and a[k] != c[k]]
+            return [Result(self.id, "a call with non-default options does not change what a later default call generates (no sticky state)", PROVED if same else REFUTED,
+                           "TV", "", time.time() - t0, f"{len(a)} files byte-identical" if same else f"files differing / missing after an intervening call: {diff}",
+                           None if same else {"inputs": {"sequence": ["{}", "main=True,with_header=False", "{}"]}}, len(a))]
+        except Exception as e:
+            return [Result(self.id, "stateless generation", REFUTED, "TV", "", time.time() - t0, f"{type(e).__name__}: {e}", {"inputs": {}}, 1)]
+        finally:
+            for d in ds:
+                shutil.rmtree(d, ignore_errors=True)
+
+    def replay(self, w):
+        r = self.run()[0]
+        return r.status == REFUTED, r.detail
 
 
 class TamperCanary:
